@@ -555,6 +555,8 @@ func (g *G) GenSet() []*Mod {
 			m.Notifs = append(m.Notifs, &Notif{Name: g.id("ntf"), Kids: []*Node{g.leaf(sc, true, g.id("ev"))}})
 			m.Notifs[0].Kids[0].Config = ""
 		}
+		// (the order of a module's body statements means nothing: a third of the modules write their groupings last)
+		m.DefsLast = g.Chance(1, 3, "defslast")
 		mods = append(mods, m)
 		scopes = append(scopes, sc)
 	}
